@@ -9,7 +9,8 @@ over the jets used for C01/C02); f64 rounding is modelled, not verified.
 
 Second-order numbers (`C03_*_dual2`): the same statements with, in addition, the stored (half) second
 derivative `den2 d n w` per PAIR of names; `×` is the product rule with the symmetrised cross term.
-(`==` for second-order numbers is covered by the correspondence run only.)
+`C03_eq_dual2`: `==` on second-order numbers = agreement of value, of every first derivative by name and of
+every (half) second derivative by pair of names.
 -/
 import RateslibModel.Proofs.Dual2Layout
 namespace Rateslib
@@ -135,6 +136,16 @@ theorem C03_ptr_irrelevant_dual2 (a b : Dual2 α) (h : a.vars = b.vars) :
     Dual2.add true a b = Dual2.add false a b ∧ Dual2.sub true a b = Dual2.sub false a b ∧
     Dual2.mul true a b = Dual2.mul false a b := by
   simp only [Dual2.add, Dual2.sub, Dual2.mul, Dual2.aligned_ptr_irrelevant a b h, and_self]
+
+/-- Equality at second order treats a missing variable and zero derivatives as the same thing: two
+second-order numbers are equal exactly when their values, their first derivatives for every name and
+their (half) second derivatives for every pair of names agree — whatever the layouts. -/
+theorem C03_eq_dual2 [Transc α] [LawfulEqb α] (p : Bool) (a b : Dual2 α) (ha : a.WF) (hb : b.WF)
+    (hp : p = true → a.vars = b.vars) :
+    Dual2.eq p a b = true ↔
+      (a.real = b.real ∧ (∀ n, Dual2.den a n = Dual2.den b n) ∧
+        ∀ n w, Dual2.den2 a n w = Dual2.den2 b n w) :=
+  Dual2.eq_spec p a b ha hb hp
 
 end Second
 
